@@ -61,7 +61,7 @@ struct SaveWorld : World {
         return v;
     }
     void gen(const std::string &prop, Rng &kr, Rng &pr, Knobs &k, Plan &p) override {
-        k.assign(2, 0); k[0] = prop == "C13" ? (kr.chance(0.5) ? 2 : kr.below(2)) : kr.below(3); k[1] = kr.chance(0.06); const AppDesc &d = app_desc((int)k[0]); auto &P = *d.params;
+        k.assign(2, 0); k[0] = kr.chance(0.04) ? 3 : prop == "C13" ? (kr.chance(0.5) ? 2 : kr.below(2)) : kr.below(3); k[1] = kr.chance(0.06); const AppDesc &d = app_desc((int)k[0]); auto &P = *d.params;
         size_t focus0 = pr.below(P.size()), focusn = 3 + pr.below(8);
         // half of the runs work on one leaf's neighbourhood instead: the parameters of its own directory and of every directory above it
         // (the toggles and selectors that enable, reset or select defaults for it live there)
